@@ -240,6 +240,8 @@ type Exec struct {
 	ModelHits  int
 	model      map[string]uint64 // an assignment known to satisfy the current pc (or nil)
 	curFn      string
+	onceShare   string // non-empty while the body of a shared sync.Once runs
+	onceCtr     int
 	tracing     bool
 	events      []TraceEvent
 	Traces      map[string][]TraceEvent
